@@ -579,6 +579,15 @@ class ExecutionState:
             direct_children = self._parent_to_children.get(current_id, set())
             to_process.update(direct_children)
 
+            # Operations recorded by earlier invocations do not send their START again, so their
+            # parent links are only known from the operations loaded from the backend.
+            with self._operations_lock:
+                to_process.update(
+                    op.operation_id
+                    for op in self.operations.values()
+                    if op.parent_id == current_id
+                )
+
         # Remove the root itself (we only want descendants)
         all_descendants.discard(context_id)
 
